@@ -65,12 +65,17 @@ type psFnCfg struct {
 	// being inlined, and the recoded scalar is an opaque array of ints
 	atomic    bool
 	opaqueArr map[string]psArrCfg
+	// "init" / "step": a function of the shape `pre…; for ; i >= 0; i-- { if c { break } }; mid…;
+	// for ; i >= 0; i-- { body }; return` (data-dependent loop start, psStepParts): "init" = the
+	// statements outside the loops, "step" = the body of the second loop (its variable is an input)
+	part string
 }
 
 type psArrCfg struct {
 	text     string // defining expression (compared in normal form)
 	n        int    // length of the Go array
 	unsigned bool   // element type is unsigned (`>>`, `&` on an element are the arithmetic ones)
+	i8       bool   // element type is int8 (unary minus wraps: `negI8`)
 }
 
 type psOpaque struct {
@@ -115,9 +120,13 @@ var psConfigs = []psConfig{
 			{fn: "basepointTable", lean: "basepointTable", onceDo: true},
 			{fn: "basepointNAFTable", lean: "basepointNAFTable", onceDo: true},
 			{fn: "Point.ScalarMult", lean: "scalarMult", atomic: true,
-				opaqueArr: map[string]psArrCfg{"digits": {"p0.signedRadix16()", 112, false}}},
+				opaqueArr: map[string]psArrCfg{"digits": {"p0.signedRadix16()", 112, false, false}}},
 			{fn: "Point.ScalarBaseMult", lean: "scalarBaseMult", atomic: true,
-				opaqueArr: map[string]psArrCfg{"digits": {"p0.signedRadix16()", 112, false}}},
+				opaqueArr: map[string]psArrCfg{"digits": {"p0.signedRadix16()", 112, false, false}}},
+			{fn: "Point.VarTimeDoubleScalarBaseMult", lean: "doubleScalarInit", atomic: true, part: "init",
+				opaqueArr: map[string]psArrCfg{"aNAF": {"p0.nonAdjacentForm(5)", 448, false, true}, "bNAF": {"p2.nonAdjacentForm(8)", 448, false, true}}},
+			{fn: "Point.VarTimeDoubleScalarBaseMult", lean: "doubleScalarStep", atomic: true, part: "step",
+				opaqueArr: map[string]psArrCfg{"aNAF": {"p0.nonAdjacentForm(5)", 448, false, true}, "bNAF": {"p2.nonAdjacentForm(8)", 448, false, true}}},
 		},
 		tableFuncs: map[string]string{"basepointTable": "varBasepointTable", "basepointNAFTable": "varBasepointNAFTable"},
 		guards:     []string{"checkInitialized"},
@@ -125,14 +134,19 @@ var psConfigs = []psConfig{
 	{
 		dir: "internal/curve256k1", out: "TblOps256.lean", ns: "Gen.TblOps256",
 		pointTypes: []string{"PointJacobian"},
-		genExprs:   map[string]string{"base.FromAffine(gen.NewGenerator())": ".newGenerator"},
+		genExprs: map[string]string{"base.FromAffine(gen.NewGenerator())": ".newGenerator",
+			"q.FromAffine(new(Point).NewGenerator())": ".newGenerator"},
 		fns: []psFnCfg{
 			{fn: "lookupTable.Init", lean: "lookupInit"},
 			{fn: "lookupTable.SelectInto", lean: "lookupSelect"},
 			{fn: "initBaseTable", lean: "initBaseTable", onceDo: true},
 			{fn: "PointJacobian.ScalarMult", lean: "scalarMult", atomic: true,
-				opaqueArr: map[string]psArrCfg{"s": {"normalizeScalar(p1)", 32, true}}},
+				opaqueArr: map[string]psArrCfg{"s": {"normalizeScalar(p1)", 32, true, false}}},
+			{fn: "PointJacobian.ScalarBaseMult", lean: "scalarBaseMult", atomic: true,
+				opaqueArr: map[string]psArrCfg{"s": {"normalizeScalar(p0)", 32, true, false}}},
 		},
+		// `initBaseTable()` (sync.Once around the constructor regenerated as `initBaseTable`): recorded
+		guards: []string{"initBaseTable"},
 	},
 }
 
@@ -157,11 +171,13 @@ type psVar struct {
 	// int variable known to be non-negative (unsigned type, loop variable over a non-negative range,
 	// assigned a non-negative expression): `>>` and `&` are only translated on such values
 	nonneg bool
+	i8     bool // int8 value (element of an int8 array, or a copy of one)
 }
 
 type psIExpr struct {
 	nonneg bool
-	op     string // lit var add sub mul div shr band ctEq aget (x = array, a = index)
+	i8     bool
+	op     string // lit var add sub mul div shr band ctEq aget (x = array, a = index) negI8 lt
 	v      int64
 	x      *psVar
 	a, b   *psIExpr
@@ -173,7 +189,8 @@ type psPlace struct {
 }
 
 type psStmt struct {
-	kind   string // call assign for down tinit tselect
+	kind   string // call assign for down tinit tselect ite (e = condition, body / els)
+	els    []*psStmt
 	n      int
 	op     string
 	dst    psPlace
@@ -207,6 +224,132 @@ type psBind struct {
 	role   string
 	ptr    bool
 	defer_ ast.Expr // kind "deferred": pure single-assignment temporary, only substituted into opaque expressions
+	ind    *psInd   // kind "iexpr": SECOND INDUCTION VARIABLE of a `for i, j := …` loop (current symbolic value in ie)
+}
+
+// Second induction variable of a loop `for i, j := c, c'; i < n; i++ { … j-- … j-- … }`: j is not a
+// variable of the generated tree; every use is replaced by its value as an affine function of the loop
+// variable, `j0 + off + delta·t` (t = number of the iteration = (i - lo) / step, off = sum of the updates
+// textually before the use, delta = sum of ALL updates of one iteration).  Valid because the updates are
+// unconditional top-level statements of the loop body by constants (nothing else may assign j, take its
+// address, or leave the body early), so by induction j = j0 + delta·t at the start of iteration t.  Every
+// index built from j is evaluated over the whole iteration space and range-checked like any other.
+type psInd struct {
+	name, role string
+	j0, delta  int64
+	off        int64
+	t          *psIExpr // iteration number as an expression of the loop variable
+	loopDepth  int
+	inlDepth   int
+	updates    []int64
+}
+
+func (d *psInd) value() *psIExpr {
+	base := psLit(d.j0 + d.off)
+	if d.delta == 0 {
+		return base
+	}
+	return &psIExpr{op: "add", a: base, b: &psIExpr{op: "mul", a: psLit(d.delta), b: d.t}}
+}
+
+// constant value of an int expression without variables
+func psConstEval(e *psIExpr) (int64, bool) {
+	switch e.op {
+	case "lit":
+		return e.v, true
+	case "add", "sub", "mul", "div":
+		a, ok1 := psConstEval(e.a)
+		b, ok2 := psConstEval(e.b)
+		if !ok1 || !ok2 {
+			return 0, false
+		}
+		switch e.op {
+		case "add":
+			return a + b, true
+		case "sub":
+			return a - b, true
+		case "mul":
+			return a * b, true
+		}
+		if b != 0 {
+			return a / b, true
+		}
+	}
+	return 0, false
+}
+
+// `j--`, `j++`, `j -= c`, `j += c`, `j = j - c`, `j = j + c` on identifier name: the constant change
+func psIndUpdate(s ast.Stmt, name string) (int64, bool) {
+	isJ := func(e ast.Expr) bool {
+		id, ok := e.(*ast.Ident)
+		return ok && id.Name == name
+	}
+	switch x := s.(type) {
+	case *ast.IncDecStmt:
+		if isJ(x.X) {
+			if x.Tok == token.INC {
+				return 1, true
+			}
+			return -1, true
+		}
+	case *ast.AssignStmt:
+		if len(x.Lhs) != 1 || len(x.Rhs) != 1 || !isJ(x.Lhs[0]) {
+			return 0, false
+		}
+		switch x.Tok {
+		case token.ADD_ASSIGN, token.SUB_ASSIGN:
+			if k, ok := osConstInt(x.Rhs[0]); ok {
+				if x.Tok == token.SUB_ASSIGN {
+					k = -k
+				}
+				return k, true
+			}
+		case token.ASSIGN:
+			if be, ok := x.Rhs[0].(*ast.BinaryExpr); ok && isJ(be.X) && (be.Op == token.ADD || be.Op == token.SUB) {
+				if k, ok := osConstInt(be.Y); ok {
+					if be.Op == token.SUB {
+						k = -k
+					}
+					return k, true
+				}
+			}
+		}
+	}
+	return 0, false
+}
+
+// an update statement of a second induction variable in the body being walked
+func (c *psCtx) indStmt(sc *psScope, s ast.Stmt) (bool, error) {
+	for name, b := range sc.m {
+		if b.kind != "iexpr" || b.ind == nil {
+			continue
+		}
+		k, ok := psIndUpdate(s, name)
+		if !ok {
+			continue
+		}
+		d := b.ind
+		if len(c.loops) != d.loopDepth || c.depth != d.inlDepth {
+			return true, c.p.errAt(s, "induction variable %s is updated inside a nested loop", name)
+		}
+		d.off += k
+		sc.m[name] = &psBind{kind: "iexpr", ie: d.value(), ind: d, role: d.role}
+		return true, nil
+	}
+	return false, nil
+}
+
+func (c *psCtx) mentionsInd(sc *psScope, e ast.Expr) bool {
+	found := false
+	ast.Inspect(e, func(n ast.Node) bool {
+		if id, ok := n.(*ast.Ident); ok {
+			if b, ok := sc.m[id.Name]; ok && b.ind != nil {
+				found = true
+			}
+		}
+		return true
+	})
+	return found
 }
 
 type psPkg struct {
@@ -406,12 +549,27 @@ func (c *psCtx) iexpr(sc *psScope, e ast.Expr) (*psIExpr, error) {
 	case *ast.Ident:
 		b, ok := sc.m[x.Name]
 		if ok && b.kind == "int" {
-			return &psIExpr{op: "var", x: b.intv, nonneg: b.intv.nonneg}, nil
+			return &psIExpr{op: "var", x: b.intv, nonneg: b.intv.nonneg, i8: b.intv.i8}, nil
 		}
 		if ok && b.kind == "iexpr" {
 			return b.ie, nil
 		}
 		return nil, c.p.errAt(e, "%s is not an int variable", x.Name)
+	case *ast.UnaryExpr:
+		// `-x` on an int8 value wraps (−(−128) = −128)
+		if x.Op == token.SUB {
+			a, err := c.iexpr(sc, x.X)
+			if err != nil {
+				return nil, err
+			}
+			if a.op == "lit" {
+				return psLit(-a.v), nil
+			}
+			if !a.i8 {
+				return nil, c.p.errAt(e, "unary minus on a value that is not known to be an int8")
+			}
+			return &psIExpr{op: "negI8", a: a, i8: true}, nil
+		}
 	case *ast.BinaryExpr:
 		a, err := c.iexpr(sc, x.X)
 		if err != nil {
@@ -461,7 +619,7 @@ func (c *psCtx) iexpr(sc *psScope, e ast.Expr) (*psIExpr, error) {
 				c.facts = append(c.facts, [2]string{"index-checked", fmt.Sprintf("%s in [%d, %d] of %d", txt, lo, hi, b.n)})
 				c.facts = c.facts[:len(c.facts)-1]
 				c.facts = append(c.facts, [2]string{"index-checked", fmt.Sprintf("%s in [%d, %d] of %d", b.intv.role, lo, hi, b.n)})
-				return &psIExpr{op: "aget", x: b.intv, a: ie, nonneg: b.intv.nonneg}, nil
+				return &psIExpr{op: "aget", x: b.intv, a: ie, nonneg: b.intv.nonneg, i8: b.intv.i8}, nil
 			}
 		}
 	case *ast.CallExpr:
@@ -469,6 +627,12 @@ func (c *psCtx) iexpr(sc *psScope, e ast.Expr) (*psIExpr, error) {
 			if aid, ok := x.Args[0].(*ast.Ident); ok {
 				if b, ok := sc.m[aid.Name]; ok && b.kind == "iarr" {
 					return psLit(int64(b.n)), nil
+				}
+				// len of a package-level array of tables
+				if _, shadow := sc.m[aid.Name]; !shadow {
+					if b := c.pkgVar(sc, aid.Name); b != nil && b.kind == "tables" {
+						return psLit(int64(b.count)), nil
+					}
 				}
 			}
 		}
@@ -514,7 +678,7 @@ func (c *psCtx) idxRange(e *psIExpr) (lo, hi int64, ok bool) {
 				return a >> uint(e.v), true
 			}
 			return a & e.v, true
-		case "ctEq", "aget":
+		case "ctEq", "aget", "negI8", "lt":
 			return 0, false
 		}
 		a, ok1 := eval(e.a)
@@ -604,6 +768,9 @@ func (c *psCtx) tableOf(sc *psScope, e ast.Expr) (*psBind, error) {
 				if lo, hi, ok := c.idxRange(ie); ok {
 					if lo < 0 || hi >= int64(b.count) {
 						return nil, c.p.errAt(e, "index %s ranges over [%d, %d], outside [0, %d)", c.p.text(x.Index), lo, hi, b.count)
+					}
+					if c.mentionsInd(sc, x.Index) {
+						c.facts = append(c.facts, [2]string{"index-checked", fmt.Sprintf("%s in [%d, %d] of %d", b.arr.role, lo, hi, b.count)})
 					}
 				} else {
 					c.facts = append(c.facts, [2]string{"index-unchecked", c.p.text(e)})
@@ -766,6 +933,8 @@ func (c *psCtx) call(sc *psScope, call *ast.CallExpr, out *[]*psStmt) (psPlace, 
 			return psPlace{}, c.atomicCall(sc, call, t, sel.Sel.Name, out)
 		}
 		return psPlace{}, c.inline(sc, call, t, sel.Sel.Name, out)
+	} else if strings.Contains(err.Error(), "outside [0, ") {
+		return psPlace{}, err // a table index that leaves the array of tables: report THAT
 	}
 	m, ok := psMethods[sel.Sel.Name]
 	if !ok {
@@ -967,7 +1136,18 @@ func (c *psCtx) stmts(sc *psScope, list []ast.Stmt, top bool) ([]*psStmt, error)
 			if _, err := c.call(sc, call, &out); err != nil {
 				return nil, err
 			}
+		case *ast.IncDecStmt:
+			if done, err := c.indStmt(sc, s); err != nil {
+				return nil, err
+			} else if !done {
+				return nil, c.p.errAt(s, "unsupported statement (%T): %s", s, c.p.text(s))
+			}
 		case *ast.AssignStmt:
+			if done, err := c.indStmt(sc, s); err != nil {
+				return nil, err
+			} else if done {
+				continue
+			}
 			if err := c.assign(sc, x, &out); err != nil {
 				return nil, err
 			}
@@ -999,7 +1179,11 @@ func (c *psCtx) stmts(sc *psScope, list []ast.Stmt, top bool) ([]*psStmt, error)
 					}
 				}
 			}
-			return nil, c.p.errAt(s, "unsupported statement (if): %s", c.p.text(x.Cond))
+			ss, err := c.ifStmt(sc, x)
+			if err != nil {
+				return nil, err
+			}
+			out = append(out, ss...)
 		case *ast.ReturnStmt:
 			if i != len(list)-1 {
 				return nil, c.p.errAt(s, "return before the end of the body")
@@ -1018,6 +1202,89 @@ func (c *psCtx) stmts(sc *psScope, list []ast.Stmt, top bool) ([]*psStmt, error)
 			return nil, c.p.errAt(s, "unsupported statement (%T): %s", s, c.p.text(s))
 		}
 	}
+	return out, nil
+}
+
+// `if [x := e;] a < b { … } [else if … | else { … }]` (also `>`): conditions are comparisons of int
+// expressions; no break / continue / return / goto inside
+func (c *psCtx) ifStmt(sc *psScope, x *ast.IfStmt) ([]*psStmt, error) {
+	var badAt ast.Node
+	ast.Inspect(x, func(n ast.Node) bool {
+		switch n.(type) {
+		case *ast.BranchStmt, *ast.ReturnStmt, *ast.FuncLit:
+			badAt = n
+		}
+		return true
+	})
+	if badAt != nil {
+		return nil, c.p.errAt(badAt, "unsupported statement inside an if (break / continue / return / function literal)")
+	}
+	var out []*psStmt
+	inner := sc.child()
+	if x.Init != nil {
+		as, ok := x.Init.(*ast.AssignStmt)
+		if !ok || as.Tok != token.DEFINE {
+			return nil, c.p.errAt(x.Init, "unsupported if-initialiser %s", c.p.text(x.Init))
+		}
+		if err := c.assign(inner, as, &out); err != nil {
+			return nil, err
+		}
+	}
+	be, ok := x.Cond.(*ast.BinaryExpr)
+	if !ok || (be.Op != token.LSS && be.Op != token.GTR) {
+		return nil, c.p.errAt(x, "unsupported statement (if): %s", c.p.text(x.Cond))
+	}
+	a, err := c.iexpr(inner, be.X)
+	if err != nil {
+		return nil, err
+	}
+	b, err := c.iexpr(inner, be.Y)
+	if err != nil {
+		return nil, err
+	}
+	if be.Op == token.GTR {
+		a, b = b, a
+	}
+	cond := &psIExpr{op: "lt", a: a, b: b, nonneg: true}
+	// a local counts as written after the `if` only if both branches write it
+	before := make([]bool, len(c.vars))
+	for i, v := range c.vars {
+		before[i] = v.wrote
+	}
+	thenS, err := c.stmts(inner.child(), x.Body.List, false)
+	if err != nil {
+		return nil, err
+	}
+	afterThen := make([]bool, len(c.vars))
+	for i, v := range c.vars {
+		afterThen[i] = v.wrote
+		if i < len(before) {
+			v.wrote = before[i]
+		}
+	}
+	var elseS []*psStmt
+	switch el := x.Else.(type) {
+	case nil:
+	case *ast.BlockStmt:
+		elseS, err = c.stmts(inner.child(), el.List, false)
+	case *ast.IfStmt:
+		elseS, err = c.ifStmt(inner, el)
+	default:
+		err = c.p.errAt(x.Else, "unsupported else")
+	}
+	if err != nil {
+		return nil, err
+	}
+	for i, v := range c.vars {
+		if i < len(before) && !before[i] {
+			v.wrote = v.wrote && afterThen[i]
+		}
+	}
+	hdr := "if "
+	if x.Init != nil {
+		hdr += c.p.text(x.Init) + "; "
+	}
+	out = append(out, &psStmt{kind: "ite", e: cond, body: thenS, els: elseS, text: c.tagged(hdr + c.p.text(x.Cond))})
 	return out, nil
 }
 
@@ -1078,7 +1345,7 @@ func (c *psCtx) assign(sc *psScope, x *ast.AssignStmt, out *[]*psStmt) error {
 			return c.p.errAt(x, "opaque definition of %s changed: normal form %q (configured %q)", id.Name, got, want)
 		}
 		v := c.newVar(id.Name, "iarr")
-		v.n, v.input, v.nonneg, v.role = ac.n, true, ac.unsigned, fmt.Sprintf("a%d", c.nArr)
+		v.n, v.input, v.nonneg, v.i8, v.role = ac.n, true, ac.unsigned, ac.i8, fmt.Sprintf("a%d", c.nArr)
 		c.nArr++
 		c.facts = append(c.facts, [2]string{"opaque " + v.role, got})
 		sc.m[id.Name] = &psBind{kind: "iarr", intv: v, n: ac.n, role: v.role}
@@ -1143,7 +1410,7 @@ func (c *psCtx) assign(sc *psScope, x *ast.AssignStmt, out *[]*psStmt) error {
 		return err
 	}
 	v := c.newVar(sc.prefix+id.Name, "int")
-	v.nonneg, v.role = ie.nonneg, c.localRole(sc.prefix)
+	v.nonneg, v.i8, v.role = ie.nonneg, ie.i8, c.localRole(sc.prefix)
 	*out = append(*out, &psStmt{kind: "assign", v: v, e: ie, text: c.tagged(c.p.text(x))})
 	sc.m[id.Name] = &psBind{kind: "int", intv: v, role: v.role}
 	return nil
@@ -1154,14 +1421,35 @@ func (c *psCtx) forStmt(sc *psScope, x *ast.ForStmt) (*psStmt, error) {
 		return nil, c.p.errAt(x, "unsupported loop header (only `for i := c; i < c'; i++ / i += c''` with constants)")
 	}
 	as, ok := x.Init.(*ast.AssignStmt)
-	if !ok || as.Tok != token.DEFINE || len(as.Lhs) != 1 || len(as.Rhs) != 1 {
+	if !ok || as.Tok != token.DEFINE || len(as.Lhs) != len(as.Rhs) || len(as.Lhs) < 1 || len(as.Lhs) > 2 {
 		return fail()
 	}
-	iv, ok := as.Lhs[0].(*ast.Ident)
+	// `for i, j := c, c'; …`: the variable of the condition is the loop variable, the other one a
+	// second induction variable (psInd)
+	ivIdx := 0
+	if len(as.Lhs) == 2 {
+		if be, ok := x.Cond.(*ast.BinaryExpr); ok {
+			if cid, ok := be.X.(*ast.Ident); ok {
+				if l1, ok := as.Lhs[1].(*ast.Ident); ok && l1.Name == cid.Name {
+					ivIdx = 1
+				}
+			}
+		}
+	}
+	iv, ok := as.Lhs[ivIdx].(*ast.Ident)
 	if !ok {
 		return fail()
 	}
-	init := as.Rhs[0]
+	var jv *ast.Ident
+	var jinit ast.Expr
+	if len(as.Lhs) == 2 {
+		jv, ok = as.Lhs[1-ivIdx].(*ast.Ident)
+		if !ok || jv.Name == "_" || jv.Name == iv.Name {
+			return fail()
+		}
+		jinit = as.Rhs[1-ivIdx]
+	}
+	init := as.Rhs[ivIdx]
 	if call, ok := init.(*ast.CallExpr); ok && len(call.Args) == 1 {
 		if id, ok := call.Fun.(*ast.Ident); ok && (id.Name == "uint8" || id.Name == "int") {
 			init = call.Args[0]
@@ -1239,13 +1527,95 @@ func (c *psCtx) forStmt(sc *psScope, x *ast.ForStmt) (*psStmt, error) {
 			if id, ok := a.X.(*ast.Ident); ok && id.Name == iv.Name {
 				bad = true
 			}
-		case *ast.BranchStmt:
+		case *ast.BranchStmt, *ast.ReturnStmt:
 			bad = true
 		}
 		return true
 	})
 	if bad {
-		return nil, c.p.errAt(x, "loop variable %s is modified in the body, or the body has break/continue", iv.Name)
+		return nil, c.p.errAt(x, "loop variable %s is modified in the body, or the body has break/continue/return", iv.Name)
+	}
+	var ind *psInd
+	if jv != nil {
+		if down {
+			return nil, c.p.errAt(x, "a second loop variable is supported for upward loops only")
+		}
+		je, err := c.iexpr(sc, jinit)
+		if err != nil {
+			return nil, err
+		}
+		for k, b := range sc.m { // package-level variables bound by the initial value (`len(baseTable)-1`)
+			if strings.HasPrefix(k, "\x00pkg:") {
+				inner.m[k] = b
+			}
+		}
+		j0, ok := psConstEval(je)
+		if !ok {
+			return nil, c.p.errAt(jinit, "initial value of %s is not a constant", jv.Name)
+		}
+		// updates: unconditional top-level statements of the body, by constants; no other assignment,
+		// redefinition or address-taking of the variable anywhere in the body
+		ind = &psInd{name: jv.Name, j0: j0, role: c.localRole(sc.prefix)}
+		for _, s := range x.Body.List {
+			if k, ok := psIndUpdate(s, jv.Name); ok {
+				ind.updates = append(ind.updates, k)
+				ind.delta += k
+			}
+		}
+		nAssign := 0
+		var badAt ast.Node
+		ast.Inspect(x.Body, func(n ast.Node) bool {
+			isJ := func(e ast.Expr) bool {
+				id, ok := e.(*ast.Ident)
+				return ok && id.Name == jv.Name
+			}
+			switch a := n.(type) {
+			case *ast.AssignStmt:
+				for _, l := range a.Lhs {
+					if isJ(l) {
+						nAssign++
+						if a.Tok == token.DEFINE {
+							badAt = n
+						}
+					}
+				}
+			case *ast.IncDecStmt:
+				if isJ(a.X) {
+					nAssign++
+				}
+			case *ast.UnaryExpr:
+				if a.Op == token.AND && isJ(a.X) {
+					badAt = n
+				}
+			case *ast.ValueSpec:
+				for _, nm := range a.Names {
+					if nm.Name == jv.Name {
+						badAt = n
+					}
+				}
+			case *ast.RangeStmt:
+				if (a.Key != nil && isJ(a.Key)) || (a.Value != nil && isJ(a.Value)) {
+					badAt = n
+				}
+			case *ast.FuncLit:
+				badAt = n
+			}
+			return true
+		})
+		if badAt != nil {
+			return nil, c.p.errAt(badAt, "second loop variable %s: redefined, address taken, or a function literal in the body", jv.Name)
+		}
+		if nAssign != len(ind.updates) {
+			return nil, c.p.errAt(x, "second loop variable %s: %d assignments in the body, only %d are unconditional top-level updates by a constant",
+				jv.Name, nAssign, len(ind.updates))
+		}
+		iref := &psIExpr{op: "var", x: v, nonneg: v.nonneg}
+		ind.t = iref
+		if lo != 0 || step != 1 {
+			ind.t = &psIExpr{op: "div", a: &psIExpr{op: "sub", a: iref, b: psLit(lo)}, b: psLit(step)}
+		}
+		ind.loopDepth, ind.inlDepth = len(c.loops)+1, c.depth
+		inner.m[jv.Name] = &psBind{kind: "iexpr", ie: ind.value(), ind: ind, role: ind.role}
 	}
 	if down {
 		// for i := lo(start); i >= hi(bound); i--   : values bound … start
@@ -1257,6 +1627,13 @@ func (c *psCtx) forStmt(sc *psScope, x *ast.ForStmt) (*psStmt, error) {
 	c.loops = c.loops[:len(c.loops)-1]
 	if err != nil {
 		return nil, err
+	}
+	if ind != nil {
+		if ind.off != ind.delta {
+			return nil, c.p.errAt(x, "second loop variable %s: walked updates %d, counted %d", ind.name, ind.off, ind.delta)
+		}
+		c.facts = append(c.facts, [2]string{"induction " + ind.role,
+			fmt.Sprintf("from %d, updates %v per iteration of loop %d", ind.j0, ind.updates, c.nLoop+1)})
 	}
 	hdr := "for " + c.p.text(x.Init) + "; " + c.p.text(x.Cond) + "; " + c.p.text(x.Post)
 	c.nLoop++
@@ -1386,6 +1763,123 @@ func (c *psCtx) rangeStmt(sc *psScope, x *ast.RangeStmt) (*psStmt, error) {
 	return &psStmt{kind: "for", v: j, lo: lo, hi: hi, step: 1, body: body, text: c.tagged(hdr + " := range " + c.p.text(x.X))}, nil
 }
 
+// A function with a DATA-DEPENDENT loop start (edwards448 VarTimeDoubleScalarBaseMult):
+//
+//	pre…; i := c; for ; i >= 0; i-- { if cond { break } }; mid…; for ; i >= 0; i-- { body }; [return x]
+//
+// part "init": pre…, mid… (everything outside the two loops); part "step": the body of the second loop
+// with the loop variable as an INPUT.  The first loop is not translated: its shape is checked, the normal
+// form of `cond` is recorded.  Since i starts at the constant c, is only decremented, and both loops run
+// while i >= 0, the body sees 0 <= i <= c: indices built from i are range-checked over that interval.
+func (c *psCtx) stepParts(sc *psScope, fd *ast.FuncDecl, list []ast.Stmt) ([]*psStmt, error) {
+	var outside []ast.Stmt
+	var loops []*ast.ForStmt
+	for _, s := range list {
+		if f, ok := s.(*ast.ForStmt); ok {
+			loops = append(loops, f)
+		} else {
+			outside = append(outside, s)
+		}
+	}
+	if len(loops) != 2 {
+		return nil, c.p.errAt(fd, "%s: expected exactly two top-level loops, found %d", c.fc.fn, len(loops))
+	}
+	initS, err := c.stmts(sc, outside, true)
+	if err != nil {
+		return nil, err
+	}
+	// header `for ; i >= 0; i--`
+	header := func(f *ast.ForStmt) (string, bool) {
+		if f.Init != nil {
+			return "", false
+		}
+		be, ok := f.Cond.(*ast.BinaryExpr)
+		if !ok || be.Op != token.GEQ {
+			return "", false
+		}
+		id, ok := be.X.(*ast.Ident)
+		if k, ok2 := osConstInt(be.Y); !ok || !ok2 || k != 0 {
+			return "", false
+		}
+		pd, ok := f.Post.(*ast.IncDecStmt)
+		if !ok || pd.Tok != token.DEC {
+			return "", false
+		}
+		if pid, ok := pd.X.(*ast.Ident); !ok || pid.Name != id.Name {
+			return "", false
+		}
+		return id.Name, true
+	}
+	n1, ok1 := header(loops[0])
+	n2, ok2 := header(loops[1])
+	if !ok1 || !ok2 || n1 != n2 {
+		return nil, c.p.errAt(loops[0], "%s: both loops must have the header `for ; i >= 0; i--` on the same variable", c.fc.fn)
+	}
+	b, ok := sc.m[n1]
+	if !ok || b.kind != "int" {
+		return nil, c.p.errAt(loops[0], "%s is not an int variable", n1)
+	}
+	iv := b.intv
+	// the start value: exactly one assignment outside the loops, a constant
+	var start int64
+	nDef := 0
+	for _, s := range initS {
+		if s.kind == "assign" && s.v == iv {
+			v, ok := psConstEval(s.e)
+			if !ok {
+				return nil, c.p.errAt(fd, "%s: start value of %s is not a constant", c.fc.fn, n1)
+			}
+			start = v
+			nDef++
+		}
+	}
+	if d, a := osAssignCount(outside, n1); nDef != 1 || d != 1 || a != 0 || start < 0 {
+		return nil, c.p.errAt(fd, "%s: %s must be defined once, by a constant >= 0, outside the loops", c.fc.fn, n1)
+	}
+	// first loop: `{ if cond { break } }`
+	var cond ast.Expr
+	if len(loops[0].Body.List) == 1 {
+		if is, ok := loops[0].Body.List[0].(*ast.IfStmt); ok && is.Init == nil && is.Else == nil && len(is.Body.List) == 1 {
+			if br, ok := is.Body.List[0].(*ast.BranchStmt); ok && br.Tok == token.BREAK && br.Label == nil {
+				cond = is.Cond
+			}
+		}
+	}
+	if cond == nil {
+		return nil, c.p.errAt(loops[0], "%s: the first loop must be `for ; i >= 0; i-- { if cond { break } }`", c.fc.fn)
+	}
+	nf, err := c.norm(sc, cond)
+	if err != nil {
+		return nil, c.p.errAt(cond, "skip condition: %v", err)
+	}
+	// second loop: the variable is not assigned in the body; no break / continue / return
+	var badAt ast.Node
+	ast.Inspect(loops[1].Body, func(n ast.Node) bool {
+		switch n.(type) {
+		case *ast.BranchStmt, *ast.ReturnStmt, *ast.FuncLit:
+			badAt = n
+		}
+		return true
+	})
+	if d, a := osAssignCount(loops[1].Body.List, n1); badAt != nil || d != 0 || a != 0 {
+		return nil, c.p.errAt(loops[1], "%s: the second loop assigns %s or leaves its body early", c.fc.fn, n1)
+	}
+	iv.nonneg = true
+	c.loops = append(c.loops, psLoop{iv, 0, start + 1, 1})
+	stepS, err := c.stmts(sc.child(), loops[1].Body.List, false)
+	c.loops = c.loops[:len(c.loops)-1]
+	if err != nil {
+		return nil, err
+	}
+	c.facts = append(c.facts, [2]string{"loop 1", fmt.Sprintf("%s from %d down to 0, leaves at the first position where %s", iv.role, start, nf)})
+	c.facts = append(c.facts, [2]string{"loop 2", fmt.Sprintf("%s continues down to 0", iv.role)})
+	if c.fc.part == "step" {
+		iv.input = true
+		return stepS, nil
+	}
+	return initS, nil
+}
+
 // ---------------------------------------------------------------------------------------------
 // one function
 
@@ -1489,7 +1983,13 @@ func psTranslate(p *psPkg, fc *psFnCfg) (*psResult, error) {
 		c.facts = append(c.facts, [2]string{"opaque " + o.name, nf})
 	}
 	c.scan = list
-	body, err := c.stmts(sc, list, true)
+	var body []*psStmt
+	var err error
+	if fc.part != "" {
+		body, err = c.stepParts(sc, fd, list)
+	} else {
+		body, err = c.stmts(sc, list, true)
+	}
 	if err != nil {
 		return nil, err
 	}
@@ -1532,6 +2032,9 @@ func psTranslate(p *psPkg, fc *psFnCfg) (*psResult, error) {
 			case "for", "down":
 				walk(s.body)
 				walk(s.body)
+			case "ite":
+				walk(s.body)
+				walk(s.els)
 			}
 		}
 	}
@@ -1586,6 +2089,8 @@ func (e *psIExpr) lean() string {
 		return fmt.Sprintf("(.%s %s %d)", e.op, e.a.lean(), e.v)
 	case "aget":
 		return fmt.Sprintf("(.aget %d %s)", e.x.id, e.a.lean())
+	case "negI8":
+		return fmt.Sprintf("(.negI8 %s)", e.a.lean())
 	}
 	return fmt.Sprintf("(.%s %s %s)", e.op, e.a.lean(), e.b.lean())
 }
@@ -1624,6 +2129,12 @@ func psEmitStmts(b *strings.Builder, ss []*psStmt, ind string) {
 		case "down":
 			fmt.Fprintf(b, "%s  -- %s\n%s  .forDown %d %d %d (", ind, s.text, ind, s.v.id, s.hi, s.lo)
 			psEmitStmts(b, s.body, ind+"  ")
+			fmt.Fprintf(b, ")%s\n", sep)
+		case "ite":
+			fmt.Fprintf(b, "%s  -- %s\n%s  .ite %s (", ind, s.text, ind, s.e.lean())
+			psEmitStmts(b, s.body, ind+"  ")
+			b.WriteString(") (")
+			psEmitStmts(b, s.els, ind+"  ")
 			fmt.Fprintf(b, ")%s\n", sep)
 		case "tinit":
 			fmt.Fprintf(b, "%s  -- %s\n%s  .tinit %s %d %s %d %s%s\n", ind, s.text, ind, s.op, s.v.id, s.e.lean(), s.n, s.args[0].lean(), sep)
@@ -1677,7 +2188,9 @@ func genOpStmt(cfg *psConfig) ([]byte, error) {
 			return nil, err
 		}
 		r.emit(&b)
-		names = append(names, cfg.fns[i].fn)
+		if len(names) == 0 || names[len(names)-1] != cfg.fns[i].fn {
+			names = append(names, cfg.fns[i].fn)
+		}
 	}
 	fmt.Fprintf(&b, "def covered : List String := %s\nend %s\n", osStrList(names), cfg.ns)
 	return []byte(b.String()), nil
